@@ -100,6 +100,25 @@ def gen(ctx, rng):
         c = dict(y=[float(v) for v in y], w=[float(v) for v in w], lam=lam, exact=bool(exact),
                  coq_exact=bool(exact and n <= 24 and sum(1 for c in cases if c.get("coq_exact")) < nexact_coq))
         cases.append(c)
+    # series and weights that are not stored as float64 (integer series with a 0/1 mask of another dtype, float32 with a 0/1 mask):
+    # the values are exactly representable, so the float64 model applies unchanged
+    for it in range(36 if ctx.thorough else 12):
+        n = int(rng.integers(4, 60))
+        w = (rng.random(n) >= 0.3).astype(float)
+        if (w > 0).sum() < 2:
+            w[:2] = 1.0
+        y = rng.integers(-10000, 10001, size=n).astype(float)
+        yd, wd = [("int16", "bool"), ("int16", "int64"), ("int16", "uint8"), ("float32", "float32"), ("int32", "float32"), ("float64", "bool")][it % 6]
+        cases.append(dict(y=[float(v) for v in y], w=[float(v) for v in w], lam=float(10 ** rng.uniform(-2, 6)), exact=bool(n <= 40), coq_exact=False,
+                          ydtype=yd, wdtype=wd))
+    # fractional weights whose total is small (the number of observations is not the sum of the weights)
+    for it in range(24 if ctx.thorough else 8):
+        n = int(rng.integers(4, 40))
+        w = np.zeros(n)
+        k = int(rng.integers(2, min(n, 6) + 1))
+        w[rng.choice(n, size=k, replace=False)] = np.round(rng.uniform(0.02, 0.9, size=k) / k, 3) + 0.001
+        y = rng.integers(-10000, 10001, size=n).astype(float)
+        cases.append(dict(y=[float(v) for v in y], w=[float(v) for v in w], lam=float(10 ** rng.uniform(-3, 2)) * float(w.sum()), exact=bool(n <= 40), coq_exact=False))
     # interpolation regime with long zero-weight runs at an edge: the last (first) pivots become tiny (~ 3 lambda / k^3)
     for it in range(120 if ctx.thorough else 40):
         n = int(rng.integers(40, 160))
@@ -124,7 +143,7 @@ def run(ctx):
                                                "(OpsQ instance, compared with the source run on fractions.Fraction)"])
     rng = np.random.default_rng(ctx.seed)
     cases = gen(ctx, rng)
-    res, log = core.run_impl("c01_impl.py", dict(cases=[{k: c[k] for k in ("y", "w", "lam", "exact")} for c in cases]), timeout=3000)
+    res, log = core.run_impl("c01_impl.py", dict(cases=[{k: c[k] for k in ("y", "w", "lam", "exact", "ydtype", "wdtype") if k in c} for c in cases]), timeout=3000)
     if res is None:
         ctx.violation("implementation run failed", dict(kind="impl-crash", log=log[-3000:]), found_input=False)
         return
